@@ -39,9 +39,10 @@ FLOORS = {
 }
 EXHAUSTIVE_SPACE = {
     "quick": "all 4683 terms of depth <= 2 over {f,g,h} x {1,2,'c'} with arity 1-2, each against every rule set of the fixed "
-             "list (12 hand-written + 28 seeded)",
-    "thorough": "all 4683 terms of depth <= 2 over {f,g,h} x {1,2,'c'} (arity 1-2) against 12 hand-written + 108 seeded rule "
-                "sets; all 357 294 terms of depth <= 3 over {f,g} x {1,2} (arity 1-2) against 6 rule sets over that alphabet",
+             "list (12 hand-written + 48 seeded)",
+    "thorough": "all 4683 terms of depth <= 2 over {f,g,h} x {1,2,'c'} (arity 1-2) against 12 hand-written + 148 seeded rule "
+                "sets; all 357 294 terms of depth <= 3 over {f,g} x {1,2} (arity 1-2) against 10 rule sets over that alphabet "
+                "(4 hand-written + 6 seeded)",
 }
 LEVEL_NOTE = "trusts the 25-line matcher/substitution of the harness and Python tuple equality; the discrimination net is observed"
 CLAIM = ("Every iter_matches / top-level rewrite call observed (all terms to depth 2 -- depth 3 on a reduced alphabet in the "
@@ -112,6 +113,10 @@ def _subst(t, b):
     return t
 
 
+def _fresh(t):
+    return (t[0],) + tuple(_fresh(a) for a in t[1:]) if _istask(t) else t
+
+
 def _vars_of(t, out=None):
     out = set() if out is None else out
     if type(t) is str and t in VARS:
@@ -178,6 +183,14 @@ HAND = [
      (_T(g, _T(g, 1)), 2)],
 ]
 NHAND = len(HAND)
+# rule sets over the reduced alphabet {f,g} x {1,2} used with the complete depth-3 term space
+HAND_R = [
+    [(_T(f, "x", "x"), _T(g, "x")), (_T(f, _T(g, "x"), "y"), _T(f, "x", "y")), (_T(g, _T(g, "x")), "x")],
+    [(_T(f, _T(f, "x", "y"), "x"), "y"), (_T(f, "x", _T(f, "y", "x")), _T(g, "y")), (_T(g, _T(f, "x", "x")), 1),
+     (_T(f, _T(g, "x"), _T(g, "x")), "x")],
+    [(_T(f, "x"), 1), (_T(f, "x", "y"), 2), (_T(g, _T(f, "x"), "y"), "x"), (_T(g, _T(f, "x", "y")), "y")],
+    [(_T(f, _T(g, "x", "x"), "y"), "y"), (_T(f, _T(g, "x"), "y"), "x"), (_T(g, 1, "x"), "x"), (_T(g, "x", 2), _T(f, "x"))],
+]
 
 
 def _rand_pattern(rng, depth, funcs, consts, arities, pvar):
@@ -209,6 +222,8 @@ def _ruleset_spec(rs, reduced=False):
     """Deterministic description of rule set number rs: list of (lhs, rhs, callable_rhs)."""
     if not reduced and rs < NHAND:
         return [(l, r, i % 3 == 2) for i, (l, r) in enumerate(HAND[rs])], "hand"
+    if reduced and rs < len(HAND_R):
+        return [(l, r, i % 3 == 2) for i, (l, r) in enumerate(HAND_R[rs])], "hand"
     rng = random.Random(rs * 7919 + (13 if reduced else 0))
     funcs = (f, g) if reduced else FUNCS
     consts = (1, 2) if reduced else CONSTS
@@ -270,6 +285,7 @@ def _terms(reduced):
     return _TERMS[reduced]
 
 
+NSEEDED_Q, NSEEDED_T, NRED_T = 48, 148, 10
 N2 = 3 + 3 * (39 + 39 * 39)          # 4683
 N2R = 2 + 2 * (14 + 14 * 14)         # 422
 N3R = 2 + 2 * (N2R + N2R * N2R)      # 357 294
@@ -341,15 +357,15 @@ def _near_instance(rng, spec):
 def cases(tier, seed):
     rng = random.Random(seed * 15485863 + 51)
     thorough = tier == "thorough"
-    nfixed = NHAND + (108 if thorough else 28)
+    nfixed = NHAND + (NSEEDED_T if thorough else NSEEDED_Q)
     for rs in range(nfixed):
         for t in range(N2):
             yield {"space": "exhaustive", "rs": rs, "t": t}
     if thorough:
-        for rs in range(6):
+        for rs in range(NRED_T):
             for t in range(N3R):
                 yield {"space": "exhaustive", "rs": rs, "t3": t}
-    k = 60000 if not thorough else 1500000
+    k = 100000 if not thorough else 2000000
     for _ in range(k):
         # seeded rule sets beyond the fixed list as well
         rs = rng.randrange(nfixed) if rng.random() < 0.4 else rng.randrange(nfixed, 10 ** 6)
@@ -384,6 +400,7 @@ def run_case(case, ctx):
             term, how = _near_instance(rng, spec)
         else:
             term, how = _rand_term(rng, rng.choice((1, 2, 3, 4, 5))), "random"
+    term = _fresh(term)      # equal subterms are distinct objects: equality, not identity, must decide repeated variables
     ctx.op("term:" + how)
     ctx.op("ruleset:" + origin)
 
@@ -432,6 +449,7 @@ def run_case(case, ctx):
             if ok_keys:
                 inst = _subst(lhs, sd)
             if ok_keys and _eq(inst, term):
+                ctx.count("sound_yields")
                 if idx not in expected:          # cannot happen if _match and _subst agree; a harness self-check
                     raise AssertionError("harness matcher disagrees with its own substitution")
                 continue
@@ -499,6 +517,7 @@ def run_case(case, ctx):
     ctx.nontrivial = bool(expected) or bool(yielded)
     ctx.sig = (case["rs"], reduced, _show(term))
     if expected:
+        ctx.count("fixed_arity_matching_terms" if afeat == "fixed-arity" else "mixed_arity_matching_terms")
         ctx.distinct("matching_rule_sets", (case["rs"], reduced))
         if len(expected) > 1:
             ctx.count("terms_with_several_matching_rules")
